@@ -173,3 +173,41 @@ End Sched.
 Arguments ra_thread : clear implicits.
 Arguments ra_event : clear implicits.
 Arguments ra_cfg : clear implicits.
+
+(* ---------- Muxer.handle: look-up, then hand-over ---------- *)
+(* [s]: the table when the connection is routed, [s']: the table at the hand-over.  [same] compares
+   listeners (payloads).  [relookup]: the source looks the route up AGAIN when the hand-over fails
+   because the routed listener was closed (it must not: the credentials were checked against the
+   routed listener, and the route chosen is the one the connection belongs to) *)
+Definition mx_deliver {P} (same : P -> P -> bool) (relookup : bool) (s s' : rstate P) (h p u : bytes) : option P :=
+  match rt_get_vhost s h p u with
+  | None => None
+  | Some r =>
+      if existsb (fun r' : route P => same (rt_pay r) (rt_pay r')) (rt_abs s') then Some (rt_pay r)
+      else if relookup then option_map rt_pay (rt_get_vhost s' h p u) else None
+  end.
+
+(* tokens of Muxer.handle in source order: "GetListener" per call of getListener, "Handoff" per send on
+   a listener's accept channel.  The modelled shape: one look-up, then one hand-over. *)
+Definition mx_relookup (toks : list string) : bool :=
+  negb (rt_strs_eqb toks ["GetListener"; "Handoff"]%string).
+
+(* ---------- HTTPSProxy.Run: one Listen per custom domain; on a refusal the deferred Close releases the
+   listeners the proxy tracks ---------- *)
+(* [track_first]: the source appends the listener to pxy.listeners BEFORE it looks at the error of
+   Listen (then the refused listener -- whose triple belongs to ANOTHER proxy -- is closed too) *)
+Fixpoint px_run {P} (track_first : bool) (s : rstate P) (doms : list bytes) (pay : P) (tracked : list bytes)
+  : rstate P * bool :=
+  match doms with
+  | [] => (s, true)
+  | d :: r =>
+      match rt_add s d [] [] pay with
+      | Some s' => px_run track_first s' r pay (d :: tracked)
+      | None => (fold_left (fun (t : rstate P) x => rt_del t x [] []) (if track_first then d :: tracked else tracked) s, false)
+      end
+  end.
+
+(* tokens per Listen site of Run: "Listen", then "Track" (append to pxy.listeners) and "ErrReturn" in
+   source order.  Modelled shape: the error is looked at first. *)
+Definition px_track_first (toks : list string) : bool :=
+  negb (rt_strs_eqb toks ["Listen"; "ErrReturn"; "Track"; "Listen"; "ErrReturn"; "Track"]%string).
